@@ -63,8 +63,23 @@ pub fn check(a: &Analysis, obs: &mut Obs) -> Vec<Violation> {
                 ));
                 break;
             }
-        } else if i == 0 && !s.sync {
-            out.push(v(format!("video|first-sample-not-sync|{}", shape), "first sample (encode_video) is not a sync sample".into()));
+        } else {
+            // encode_video submits no flag: the documented detector decides. Judged only where
+            // that decision is unambiguous for the submitted bytes (model side, C04's detect_key).
+            let data = a.h.ops[f.op].data().unwrap_or(&[]);
+            match super::c04::detect_key(codec, data, i as u64) {
+                Some(k) if s.sync != k => {
+                    out.push(v(
+                        format!("video|sync-flag-of-encode_video|{}|{}", codec_name(codec), shape),
+                        format!("video sample {} (encode_video): sync={} but the frame {} a key frame by the documented detection", i + 1, s.sync, if k { "is" } else { "is not" }),
+                    ));
+                    break;
+                }
+                _ => {}
+            }
+            if i == 0 && !s.sync {
+                out.push(v(format!("video|first-sample-not-sync|{}", shape), "first sample (encode_video) is not a sync sample".into()));
+            }
         }
         ranges.push((s.offset, s.size as u64, "video", i));
     }
